@@ -27,6 +27,7 @@ CONSTANTS NTS,        \* nonterminal names, e.g. {"S", "A"}
           WEIGHTS,    \* rule weights
           SRNAME, L, H
 
+RatWeights == {<<1, 2>>, <<1, 1>>}      \* for configurations over the rationals (a cfg file cannot spell tuples)
 Syms == NTS \cup TS
 BodiesOf(n) == IF n = 0 THEN {<<>>} ELSE {b \in UNION {[1 .. k -> Syms] : k \in 1 .. n} : TRUE} \cup {<<>>}
 Pool == {[w |-> w, h |-> h, b |-> b] : w \in WEIGHTS, h \in NTS, b \in BodiesOf(MAXBODY)}
@@ -100,6 +101,15 @@ TotalIsSum ==
         maxlen == MAXBODY * MAXBODY * MAXBODY
         S2 == Strs(TS, IF n <= 2 THEN MAXBODY * MAXBODY ELSE maxlen)
     IN TreeSum(SRNAME, g)[g.S] = SumOver(SRNAME, S2, [s \in S2 |-> Weight(SRNAME, g, s)])
+
+(* the closed form used for long contexts agrees with the general oracle (rationals, finitely many derivations) *)
+RLClosedForm ==
+  (DetRL(g) /\ ProperRL(SRNAME, g) /\ Acyclic(g) /\ SRNAME = "Rat") =>
+     \A ctx \in Strs(TS, 2) :
+        LET pw == PrefixWeight(SRNAME, g, ctx)  X == StateAfter(g, ctx) IN
+        IF pw = Zero(SRNAME) THEN X = DEAD \/ TRUE
+        ELSE /\ \A t \in TS : RDiv(PrefixWeight(SRNAME, g, Append(ctx, t)), pw) = RLNext(SRNAME, g, X, t)
+             /\ RDiv(Weight(SRNAME, g, ctx), pw) = RLNext(SRNAME, g, X, "")
 
 (* write the family out for the replay into the code *)
 Dump == IF "FAMILY_FILE" \in DOMAIN IOEnv
